@@ -75,6 +75,9 @@ def plain17_history(rng, last_app=False):
     return h.line()
 
 
+# ResetSeqNumFlag=Y makes an acceptor restart at 1 while the harness' persister is not purged (purging is
+# SessionConfig::create_persister's job, which the harness does not use): numbers would be re-used against
+# stored records -- the same artefact as no_reuse below, so C17's generators never send 141=Y (reset_y=False).
 def no_reuse(line):
     """a configured start number or reset_sequence_numbers together with a RESTART on the same files makes the new
     session re-use numbers whose records are still in the (unpurged) file: a harness artefact, not generated."""
@@ -92,13 +95,15 @@ def gen_cases(rng, tier):
     for _ in range(80 * mult):
         cs.append(Case(plain17_history(rng, last_app=True), "batch-app-last"))
     for _ in range(230 * mult):
-        cs.append(Case(no_reuse(S.gen_history(rng, special=False, asa=0, weird=0.03)), "plain+inbound"))
+        cs.append(Case(no_reuse(S.gen_history(rng, special=False, asa=0, weird=0.03, reset_y=False)), "plain+inbound"))
     for _ in range(60 * mult):
-        cs.append(Case(no_reuse(S.gen_history(rng, persist="file", special=False, asa=0, nops=rng.randint(6, 16))), "restarts"))
+        cs.append(Case(no_reuse(S.gen_history(rng, persist="file", special=False, asa=0, nops=rng.randint(6, 16), reset_y=False)), "restarts"))
     for _ in range(60 * mult):
-        cs.append(Case(no_reuse(S.gen_history(rng, special=True, asa=0)), "nonplain-sends"))
+        cs.append(Case(no_reuse(S.gen_history(rng, special=True, asa=0, reset_y=False)), "nonplain-sends"))
     for _ in range(30 * mult):
-        cs.append(Case(no_reuse(S.gen_history(rng, asa=1)), "always-seqnum-assign"))
+        cs.append(Case(no_reuse(S.gen_history(rng, asa=1, reset_y=False)), "always-seqnum-assign"))
+    for _ in range(60 * mult):
+        cs.append(Case(no_reuse(S.gen_acceptor_logon(rng, reset_y=False)), "acceptor-logon-flags"))
     return cs
 
 
@@ -147,6 +152,14 @@ def nontrivial(case, r):
     return "STORE " in r and r.count("OUT ") >= 3
 
 
-extra_search = C16.extra_search
+def extra_search(rng, seeds, tier):
+    out = gen_cases(rng, "quick")
+    for c in seeds[:10]:
+        ops = c.line.split("|")
+        for k in range(2, len(ops) + 1):
+            out.append(Case("|".join(ops[:k]), "prefix"))
+    return out
+
+
 shrink = C16.shrink
 extra_evidence = C16.extra_evidence
